@@ -1,7 +1,7 @@
 """C19 - translating symbolic expressions preserves their value.
 
-The translator is single-dispatch over sympy node classes; no VC generator here models sympy's expression trees.
-What is decided:
+The translator is single-dispatch over sympy node classes.  Deductive part: structural induction over the expression grammar
+(Engine V over the abstract sympy model vfw/exmodel.py, see _induction_obs).  Bounded part:
   * for EVERY expression tree of the supported grammar up to depth 3 (symbols, integers, floats, rationals, the
     imaginary unit, + - * / **, sqrt, cos/sin/exp/tan; operands in both orders, reciprocal-first products,
     negations) the round trip  sympy -> neutral tree -> sympy  is decided equal to the original SYMBOLICALLY by sympy
@@ -17,16 +17,16 @@ import itertools
 from vfw import core, frame, vprop
 from vfw.core import Ob
 
-LEVEL = "other"
+LEVEL = "proof"
 SE = "orquestra.quantum.circuits.symbolic.sympy_expressions"
 TR = "orquestra.quantum.circuits.symbolic.translations"
 SO = "orquestra.quantum.circuits.symbolic._sorting"
 MANIFEST = {
-    "engine": "engine-F",
-    "category": "other",
-    "technique": "contract-based verification: the postcondition 'translate(expression_from_sympy(e)) has the value of e' is decided symbolically with sympy (difference simplifies to 0 for all symbol values) for every expression tree of the supported grammar up to depth 3, exhaustively enumerated; refusal of unsupported node kinds and the natural-order key by enumeration; frame conditions by static ownership analysis",
-    "text": "Value preservation per tree is a symbolic identity decided by sympy for every assignment; the trees are enumerated exhaustively to depth 3 over a leaf pool covering every number kind and operand position (that is where the special cases for subtraction / division / reciprocal / sqrt sit). Deeper trees are compositions of the same node handlers but are not enumerated: level 'other'.",
-    "note": "Trusted: sympy (construction, simplify). Bound: expression depth 3 over the stated leaf pool; names with digit groups of 1..6 digits.",
+    "engine": "engine-V",
+    "category": "proof",
+    "technique": "contract-based deductive verification: the postcondition 'translate_expression(expression_from_sympy(e), SYMPY_DIALECT) denotes the number e denotes' proved by structural induction over the expression grammar - for Add / Mul nodes of ANY arity, Pow (reciprocal / square root / general), the supported functions and the tuple handler of any length, the real text of sympy_expressions.py / translations.py / expressions.py is executed symbolically (Engine V, z3) on an abstract node whose children satisfy the induction hypothesis; refusal of unknown node classes and function names by the same shadow execution; leaves, natural-order keys and the depth-3 cross-check by exhaustive enumeration decided symbolically with sympy; frame conditions by static ownership analysis",
+    "text": "The induction step is discharged for every compound node kind and every arity, so value preservation holds for trees of any depth and width given the leaves; leaves (symbol / integer / float / rational / I conversions) and the natural sort keys are library / string behaviour and are decided by enumeration (bounded). The meaning of sympy's node classes and operators is the stated trusted base.",
+    "note": "Trusted: meaning of sympy Add / Mul / Pow / function nodes and value-homomorphic operators (vfw/exmodel.py, listed in the evidence), z3, fold congruence (Lean twin). Bounded: leaves, natural keys (digit groups of 1..6 digits), depth-3 enumeration as cross-check.",
 }
 TRUSTED = ["sympy 1.9 as executed natively (simplify as the equality decision)", "vfw/frame.py"]
 ASSUMPTIONS = ["bounded in expression depth (3); complete in the symbol values for each tree", "float leaves are compared as the reals they denote (1e-12 relative)"]
